@@ -561,8 +561,8 @@ func noInitPackage(path string) bool {
 var blockedPrefixes = []string{
 	"reflect", "syscall", "net", "os", "unsafe", "encoding/json", "encoding/gob", "crypto/", "runtime",
 	"github.com/tendermint/go-amino", "github.com/vmihailenco", "github.com/tendermint/iavl", "github.com/tendermint/tm-db",
-	"github.com/syndtr", "github.com/btcsuite", "github.com/ethereum/go-ethereum/crypto", "github.com/ethereum/go-ethereum/rlp",
-	"github.com/ethereum/go-ethereum/ethclient", "github.com/ethereum/go-ethereum/rpc", "github.com/tendermint/tendermint/rpc",
+	"github.com/syndtr", "github.com/btcsuite/btcd/btcec", "github.com/ethereum/go-ethereum/crypto", "github.com/ethereum/go-ethereum/rlp",
+	"github.com/ethereum/go-ethereum/ethclient", "github.com/ethereum/go-ethereum/rpc",
 	"github.com/tendermint/tendermint/crypto", "github.com/tendermint/tendermint/store", "github.com/google/uuid",
 	"github.com/davecgh", "github.com/go-kit", "golang.org/x/crypto", "github.com/blockcypher",
 }
